@@ -21,7 +21,7 @@
 //!    a zero-sized block) returns exactly `align as *mut u8`;
 //!  * result is the start of a live allocator block of at least the requested size;
 //!  * after realloc the first min(old,new) bytes equal the old contents (blocks above 16 KiB are
-//!    written/compared on windows: head, tail, every page boundary, around every alphabet size);
+//!    written/compared on windows: head, tail, 15 evenly spaced offsets, around every alphabet size);
 //!  * blocks not named by a request keep their contents;
 //!  * `Cleanup::new`: pointer null ⇔ size 0; dropping frees the block exactly once with the
 //!    layout it was allocated with; `forget` frees nothing and leaves the contents alone;
@@ -410,7 +410,7 @@ fn master() -> &'static [u8] {
 }
 
 /// Blocks above this size are written and compared on a fixed set of windows instead of
-/// byte by byte: the first 4096 bytes, 64 bytes at every 4096-byte boundary, and 128 bytes
+/// byte by byte: the first 4096 bytes, 64 bytes at 15 evenly spaced offsets, and 128 bytes
 /// around every size of the alphabet (those are the only possible min(old,new) cut points),
 /// plus the last 4096 bytes.
 const SPARSE_ABOVE: usize = 16384;
@@ -421,10 +421,13 @@ fn windows(size: usize, f: &mut dyn FnMut(usize, usize)) {
         return;
     }
     f(0, 4096);
-    let mut o = 4096;
-    while o + 64 <= size {
-        f(o, o + 64);
-        o += 4096;
+    let stride = (size / 16) & !63;
+    let mut o = stride;
+    while o + 64 <= size - 4096 {
+        if o >= 4096 {
+            f(o, o + 64);
+        }
+        o += stride;
     }
     for s in SIZES {
         if s > 4096 && s <= size {
@@ -829,6 +832,58 @@ fn prefixes(fam: &Family, len: usize) -> Vec<Vec<Op>> {
     out
 }
 
+fn run_unit(fam: &Family, prefix: &[Op]) -> Value {
+    let mut st = Stats::default();
+    let mut n = 0u64;
+    let mut steps = 0u64;
+    let mut fails: BTreeMap<String, (usize, Vec<Op>, String)> = BTreeMap::new();
+    let mut nfail = 0u64;
+    enumerate(fam, prefix, &mut |s| {
+        n += 1;
+        steps += s.len() as u64;
+        if let Some(f) = exec(s, &mut st, false) {
+            nfail += 1;
+            let key = format!("{}@{}", f.kind, f.sig);
+            let cut = s[..(f.step + 1).min(s.len())].to_vec();
+            let what = format!("[{}] after {}: {}", f.kind, seq_text(&cut), f.msg);
+            let e = fails.entry(key).or_insert((usize::MAX, vec![], String::new()));
+            if cut.len() < e.0 {
+                *e = (cut.len(), cut, what);
+            }
+        }
+    });
+    json!({
+        "n": n, "steps": steps, "nfail": nfail,
+        "nontrivial": st.nontrivial.iter().collect::<Vec<_>>(),
+        "outcomes": st.outcomes.iter().collect::<Vec<_>>(),
+        "fails": fails.iter().map(|(k, (_, s, w))| json!({"key": k, "ops": s.iter().map(op_json).collect::<Vec<_>>(), "what": w})).collect::<Vec<_>>(),
+    })
+}
+
+/// the unit died as a whole: find the first sequence of the unit that dies on its own
+fn locate_death(fam: &Family, prefix: &[Op], o: &vcommon::Outcome) -> Value {
+    let mut culprit: Option<(Vec<Op>, String)> = None;
+    let mut tried = 0;
+    enumerate(fam, prefix, &mut |s| {
+        if culprit.is_some() || tried > 3000 {
+            return;
+        }
+        tried += 1;
+        let r = vcommon::isolated(60_000, || {
+            let mut st = Stats::default();
+            exec(s, &mut st, false);
+            Vec::new()
+        });
+        if !matches!(r, vcommon::Outcome::Ok(_)) {
+            culprit = Some((s.to_vec(), r.describe()));
+        }
+    });
+    let (s, d) = culprit.unwrap_or((prefix.to_vec(), o.describe()));
+    json!({"n": 0, "steps": 0, "nfail": 1, "nontrivial": [], "outcomes": [],
+           "fails": [{"key": format!("died@{}", seq_text(&s)), "ops": s.iter().map(op_json).collect::<Vec<_>>(),
+                      "what": format!("execution of {} died: {d}", seq_text(&s))}]})
+}
+
 fn main() {
     let mut run = vcommon::Run::from_args("C24", "exploration");
     vcommon::install_quiet_panic_hook();
@@ -880,9 +935,9 @@ fn main() {
         ]
     } else {
         vec![
+            // scratch-only sequences of depth 2 are part of "mixed"
             Family { name: "mixed", host: true, scratch: true, depth: 2 },
             Family { name: "host", host: true, scratch: false, depth: 3 },
-            Family { name: "scratch", host: false, scratch: true, depth: 3 },
         ]
     };
 
@@ -912,65 +967,38 @@ fn main() {
             // debugging aid only (evidence then says exhaustive: false)
             units.truncate(m);
         }
-        let res = vcommon::par_map(units.len(), vcommon::ncpu(), |u| {
-            let prefix = &units[u];
-            // the whole unit runs in a child of the worker so that an abort in the code under
-            // test (handle_alloc_error, heap corruption) is an observation, not a lost worker
-            let out = vcommon::isolated(600_000, || {
-                let mut st = Stats::default();
-                let mut n = 0u64;
-                let mut steps = 0u64;
-                let mut fails: BTreeMap<String, (usize, Vec<Op>, String)> = BTreeMap::new();
-                let mut nfail = 0u64;
-                enumerate(fam, prefix, &mut |s| {
-                    n += 1;
-                    steps += s.len() as u64;
-                    if let Some(f) = exec(s, &mut st, false) {
-                        nfail += 1;
-                        let key = format!("{}@{}", f.kind, f.sig);
-                        let cut = s[..(f.step + 1).min(s.len())].to_vec();
-                        let what = format!("[{}] after {}: {}", f.kind, seq_text(&cut), f.msg);
-                        let e = fails.entry(key).or_insert((usize::MAX, vec![], String::new()));
-                        if cut.len() < e.0 {
-                            *e = (cut.len(), cut, what);
-                        }
-                    }
-                });
-                let v = json!({
-                    "n": n, "steps": steps, "nfail": nfail,
-                    "nontrivial": st.nontrivial.iter().collect::<Vec<_>>(),
-                    "outcomes": st.outcomes.iter().collect::<Vec<_>>(),
-                    "fails": fails.iter().map(|(k, (_, s, w))| json!({"key": k, "ops": s.iter().map(op_json).collect::<Vec<_>>(), "what": w})).collect::<Vec<_>>(),
-                });
+        // Work is split into one group of units per worker. A group runs in a child of the
+        // worker, so that an abort in the code under test (handle_alloc_error, heap corruption)
+        // is an observation and not a lost worker; if the child dies, the group's units are
+        // re-run one per child, and the dying unit sequence by sequence, to name the culprit.
+        let ngroups = vcommon::ncpu().min(units.len()).max(1);
+        let grouped = vcommon::par_map(ngroups, ngroups, |g| {
+            let idx: Vec<usize> = (g..units.len()).step_by(ngroups).collect();
+            let out = vcommon::isolated(3_600_000, || {
+                let v: Vec<Value> = idx.iter().map(|u| run_unit(fam, &units[*u])).collect();
                 serde_json::to_vec(&v).unwrap()
             });
-            match out {
-                vcommon::Outcome::Ok(b) => serde_json::from_slice::<Value>(&b).unwrap(),
-                o => {
-                    // find the first sequence of the unit that dies on its own
-                    let mut culprit: Option<(Vec<Op>, String)> = None;
-                    let mut tried = 0;
-                    enumerate(fam, prefix, &mut |s| {
-                        if culprit.is_some() || tried > 3000 {
-                            return;
+            let arr: Vec<Value> = match out {
+                vcommon::Outcome::Ok(b) => serde_json::from_slice(&b).unwrap(),
+                _ => idx
+                    .iter()
+                    .map(|u| {
+                        let prefix = &units[*u];
+                        match vcommon::isolated(600_000, || serde_json::to_vec(&run_unit(fam, prefix)).unwrap()) {
+                            vcommon::Outcome::Ok(b) => serde_json::from_slice(&b).unwrap(),
+                            o => locate_death(fam, prefix, &o),
                         }
-                        tried += 1;
-                        let r = vcommon::isolated(60_000, || {
-                            let mut st = Stats::default();
-                            exec(s, &mut st, false);
-                            Vec::new()
-                        });
-                        if !matches!(r, vcommon::Outcome::Ok(_)) {
-                            culprit = Some((s.to_vec(), r.describe()));
-                        }
-                    });
-                    let (s, d) = culprit.unwrap_or((prefix.clone(), o.describe()));
-                    json!({"n": 0, "steps": 0, "nfail": 1, "nontrivial": [], "outcomes": [],
-                           "fails": [{"key": format!("died@{}", seq_text(&s)), "ops": s.iter().map(op_json).collect::<Vec<_>>(),
-                                      "what": format!("execution of {} died: {d}", seq_text(&s))}]})
-                }
-            }
+                    })
+                    .collect(),
+            };
+            json!({"idx": idx, "res": arr})
         });
+        let mut res: Vec<Value> = vec![Value::Null; units.len()];
+        for g in &grouped {
+            for (i, r) in g["idx"].as_array().unwrap().iter().zip(g["res"].as_array().unwrap()) {
+                res[i.as_u64().unwrap() as usize] = r.clone();
+            }
+        }
         let mut n = 0u64;
         for (u, r) in res.iter().enumerate() {
             n += r["n"].as_u64().unwrap();
